@@ -9,6 +9,9 @@ for _lim in (62, 110, 210, 410, 1100, 70000, 140000):
 ENV_SIZES = (4096, 8192, 65536, 131072)
 
 
+BYTE_PATS = (6, 7, 8)
+
+
 def long_text(n, pat):
     if n == 0:
         return ""
@@ -22,4 +25,11 @@ def long_text(n, pat):
         return "€" + "x" * (n - 1)        # a 3-byte character first
     if pat == 4:
         return "\U0001F600" * n                # 4 bytes each, surrogate pairs in UTF-16
-    return ("ab漢" * (n // 3 + 1))[:n]     # mixed widths
+    if pat == 5:
+        return ("ab漢" * (n // 3 + 1))[:n]     # mixed widths
+    # patterns 6, 7, 8: for EVERY byte offset p >= 4 of the encoded text at least one of the three has p strictly
+    # inside a multi-byte character (character boundaries mod 10: {0,1,3,6}, {2,3,5,8}, {0,4,5,7}) - a cut made
+    # at a byte position, wherever a prefix moves it, splits a character in one of them
+    base = "a\u00e9\u6f22\U0001F600"
+    lead = "" if pat == 6 else ("\u00e9" if pat == 7 else "\U0001F600")
+    return (lead + base * (n // 4 + 1))[:n]
